@@ -132,6 +132,8 @@ var readOnlyExt = []string{
 	"(*math/big.Int).SetBytes", "math/big.NewInt", "invoke.Write", "invoke.Sum", "reflect.TypeOf", "unicode/utf8.", "unicode/utf16.", "bytes.",
 	"(*github.com/go-jose/go-jose/v3.JSONWebKey).UnmarshalJSON", "github.com/go-jose/go-jose/v3/json.Unmarshal:0", "encoding/json.Unmarshal:0",
 	"slices.Contains", "slices.Index", "(*net/http.Client).Do", "invoke.AuthToken", "time.", "(time.Time).", "github.com/btcsuite/btcd/btcec/v2.", "crypto/elliptic.", "invoke.IsOnCurve", "invoke.Params", "math.", "(*strings.Builder).", "sort.Strings:fresh",
+	// strings.Replacer is documented "safe for concurrent use by multiple goroutines" (its tables are built under a sync.Once)
+	"(*strings.Replacer).Replace",
 }
 
 func (a *effect) report(in ssa.Instruction, what string) {
